@@ -14,15 +14,38 @@ HOSTILE_MODULE = HOSTILE_INSTANCE + ['TagLibrary', 'DuplicateTagError', 'TagNotF
 def runtime_hostile(tags):
     """Every attribute name that resolves on a library instance, on the Tags module or on their types."""
     import types
-    names = set(dir(tags)) | set(dir(types.ModuleType)) | set(dir(tags.TagLibrary())) | set(dir(type))
+    used = tags.TagLibrary()
+    for warm in ('WARM_A', 'WARM_B', 'WARM_A'):
+        try:
+            used.add_tag(warm)
+        except Exception:  # noqa
+            pass
+    try:
+        used.itemize(), used.get_tag_name(1), len(used)
+    except Exception:  # noqa
+        pass
+    names = set(dir(tags)) | set(dir(types.ModuleType)) | set(dir(tags.TagLibrary())) | set(dir(type)) | set(dir(used)) | set(vars(used))
+    names -= {'WARM_A', 'WARM_B'}
     return sorted(names)
+
+
+def own_attribute_names(tags):
+    """Names of the instance attributes a library creates for itself at any time of its life (eagerly or lazily)."""
+    used = tags.TagLibrary()
+    try:
+        used.add_tag('WARM_A'), used.itemize(), used.get_tag_name(1), len(used)
+    except Exception:  # noqa
+        pass
+    return sorted(k for k in vars(used) if k not in ('WARM_A', 'NONE'))
 
 
 UNKNOWN_PROBES = ['NEVER_ADDED', 'Unknown9', 'ZZZ']
 
 
-def gen_names(rng, n, hostile, extra=()):
+def gen_names(rng, n, hostile, extra=(), first=()):
     out = []
+    if first and rng.random() < 0.35:
+        out.append(rng.choice(list(first)))      # the very first name a fresh library ever sees is one of its own attribute names
     for _ in range(n):
         x = rng.random()
         if x < 0.40:
@@ -125,6 +148,23 @@ class LibDriver:
         ctx.ev()
         if ln != n:
             raise CaseViolation(f'{self.label}: len is {ln}, expected {n}', accepted=ref[:30])
+        if isinstance(items, list) and rng.random() < 0.5:
+            # the caller keeps / edits the list it was handed: the library must not be affected
+            kept = list(items)
+            junk = rng.choice(['pop', 'clear', 'reverse', 'append'])
+            if junk == 'pop' and items:
+                items.pop(0)
+            elif junk == 'clear':
+                items.clear()
+            elif junk == 'reverse':
+                items.reverse()
+            else:
+                items.append(('JUNK', -1))
+            ctx.count('itemize_result_mutated')
+            items = self._itemize()
+            if list(items) != kept:
+                raise CaseViolation(f'{self.label}: editing the list returned by itemize() ({junk}) changed what the library itemises next',
+                                    expected=[(str(a)[:30], b) for a, b in kept[:20]], observed=[(str(a)[:30], b) for a, b in list(items)[:20]])
         if list(items) != [(name, i) for i, name in enumerate(ref)]:
             raise CaseViolation(f'{self.label}: itemize() differs from the accepted names in id order', expected=[(x[:30], i) for i, x in enumerate(ref)][:30],
                                 observed=[(str(a)[:30], b) for a, b in list(items)[:30]])
